@@ -5,7 +5,10 @@ import (
 	"encoding/hex"
 	"io"
 	"strconv"
+	"strings"
 	"time"
+
+	"github.com/gofiber/fiber/v2"
 
 	"github.com/versity/versitygw/internal/zzvf"
 )
@@ -368,4 +371,51 @@ func VfCrashChunk() {
 	}
 	_, _, _ = vfDrain(r, 64, 4*len(data)+16)
 	zzvf.Reach("returned")
+}
+
+// ---- C02: deferred signature verification behind the chunk decoders
+
+var vfHdr = map[string]string{}
+var vfSigRuns int
+
+func vfCtxGet(c *fiber.Ctx, key string, def ...string) string { return vfHdr[strings.ToLower(key)] }
+
+func vfStubSig(ctx *fiber.Ctx, auth AuthData, secret, checksum string, tdate time.Time, contentLen int64, debug bool) error {
+	vfSigRuns++
+	return nil
+}
+
+// VfDeferredAuth: for a big-data upload the request signature is verified by AuthReader when the raw body reaches EOF.
+// With a chunk decoder stacked on top (as the middleware does), a complete, valid body must therefore have been read to
+// its end - and the verification must have run - by the time the decoder reports io.EOF to the backend.
+func VfDeferredAuth() {
+	kind := zzvf.Choice("reader", 3)
+	sizes := vfChunkVectors[zzvf.Choice("chunk_vector", 2)]
+	ct := vfTrailers[0]
+	payload := zzvf.BytesN("payload", vfSum(sizes))
+	stream := vfBuildStream(kind, payload, sizes, ct)
+	vfHdr = map[string]string{"x-amz-date": "20240506T070809Z"}
+	switch kind {
+	case 0:
+		vfHdr["x-amz-content-sha256"] = "STREAMING-UNSIGNED-PAYLOAD-TRAILER"
+	case 1:
+		vfHdr["x-amz-content-sha256"] = "STREAMING-AWS4-HMAC-SHA256-PAYLOAD"
+	default:
+		vfHdr["x-amz-content-sha256"] = "STREAMING-AWS4-HMAC-SHA256-PAYLOAD-TRAILER"
+	}
+	vfSigRuns = 0
+	under := &vfFragReader{data: stream, eofWithData: zzvf.Choice("eof_with_data", 2) == 1}
+	ar := NewAuthReader(new(fiber.Ctx), under, AuthData{Signature: vfSeedSig}, "secret", false)
+	r := vfNewReader(kind, ar, ct)
+	out, err, _ := vfDrain(r, 4096, 4*len(stream)+16)
+	zzvf.Reach("drained")
+	if err == io.EOF {
+		zzvf.Reach("accepted")
+		zzvf.Assert(zzvf.BytesEq(out, payload), "decoded-equals-payload")
+		if kind == 0 {
+			zzvf.Assert(vfSigRuns > 0, "signature-verified-before-body-accepted")
+		} else {
+			zzvf.Assert(vfSigRuns > 0, "signature-verified-before-body-accepted@signed-reader")
+		}
+	}
 }
